@@ -331,6 +331,15 @@ class AbstractMessageLogEntry(abc.ABC):
         if not isinstance(val, (int, float, bytes, str, type(None), tuple, TupleCoord)):
             val = str(val)
 
+        try:
+            return self._apply_operator(operator, val, expected)
+        except (TypeError, AttributeError):
+            # Operator can't be applied to a field of this type, so the field
+            # just doesn't match. Shouldn't blow up the whole filter.
+            return False
+
+    @staticmethod
+    def _apply_operator(operator, val, expected):
         if not operator:
             return bool(val)
         elif operator == "==":
